@@ -338,6 +338,17 @@ def _decode(kind, cat, obj, buf, off, n, mode):
   raise HarnessError("no decoder for kind %s" % kind)
 
 
+_UNPACKERS = None
+
+
+def _unpacker_table():
+  global _UNPACKERS
+  if _UNPACKERS is None:
+    from pox.openflow.util import make_type_to_unpacker_table
+    _UNPACKERS = make_type_to_unpacker_table()
+  return _UNPACKERS
+
+
 # --------------------------------------------------------------------------- the oracle
 
 def _check_object(out, case):
@@ -520,6 +531,22 @@ def _check_object(out, case):
       out.fail("consumed", "%s (%s buffer): decoding consumed %d of %d octets" % (kind, vname, consumed, len(b)),
                cls=kind, buffer=vname)
       continue
+    if cat == "message" and kind != "ofp_flow_mod_table_id":
+      # the registry path both connection classes use: make_type_to_unpacker_table()[type](buffer, offset)
+      tbl = _unpacker_table()
+      mtype = buf[len(p) + 1]
+      fn = tbl[mtype] if mtype < len(tbl) else None
+      if fn is None:
+        out.fail("registry-missing", "%s: the type-to-unpacker table (%d entries) has no decoder for message type %d" % (
+            kind, len(tbl), mtype), cls=kind)
+        continue
+      ok3, r3 = _try(out, "unpack-registry", lambda: fn(buf, len(p)))
+      if not ok3:
+        return
+      if r3[0] - len(p) != len(b) or type(r3[1]) is not type(o2) or r3[1].pack() != o2.pack():
+        out.fail("registry-decode", "%s (%s buffer): the unpacker table decodes differently from the class (consumed %d of %d, type %s)" % (
+            kind, vname, r3[0] - len(p), len(b), type(r3[1]).__name__), cls=kind)
+        continue
     if isinstance(o2, list):
       out.fail("decoded-count", "%s: decoded into %d objects" % (kind, len(o2)), cls=kind)
       continue
